@@ -77,10 +77,12 @@ func checkC15(p *Prog, c *Check) {
 		c15FreshFetch(p, c, sp)
 		c15ReorgParams(p, c, sp)
 		c15StartIsNext(p, c, sp)
+		reorgCheckAnchored(p, c, sp)
 	}
 	c.Floor("C15.syncers", nSync, 3)
 	c15Ranges(p, c)
 	c15Narrowing(p, c)
+	upsertsMoveRows(p, c, "C15-R9", "")
 	for _, q := range []struct{ pkg, name, frag string }{
 		{"keyperimpl/shutterservice/database", "deleteIdentityRegisteredEventsFromBlockNumber", "where block_number >= $1"},
 		{"keyperimpl/shutterservice/database", "deleteEventTriggerRegisteredEventsFromBlockNumber", "where block_number >= $1"},
